@@ -121,7 +121,7 @@ def asan_env():
     env["LD_PRELOAD"] = ASAN_RT
     env["ASAN_OPTIONS"] = (
         "detect_leaks=0:allocator_may_return_null=1:abort_on_error=0:"
-        "exitcode=99:handle_segv=1:print_summary=1"
+        "exitcode=99:handle_segv=1:print_summary=1:allocator_release_to_os_interval_ms=-1:quarantine_size_mb=32:malloc_context_size=8"
     )
     env["UBSAN_OPTIONS"] = "print_stacktrace=1:halt_on_error=1:exitcode=99"
     env["PYTHONMALLOC"] = "malloc"
